@@ -234,6 +234,14 @@ def nt_tecmp(c):
     return any(len(op.get('in', [])) >= 29 and op['in'][0] == 0 and op['in'][5] in (1, 2, 3) for op in c.get('ops', []))
 
 
+def dec_arbitrary(tier, seed, path):
+    return dec_gen.write(path, dec_gen.arbitrary(seed + 29, 150 if tier == 'quick' else 5000, 'x'))
+
+
+def dec_arbitrary_plain(tier, seed, path):
+    return dec_gen.write(path, dec_gen.arbitrary(seed + 30, 150 if tier == 'quick' else 5000, 'y'))
+
+
 DEC_INV = ['InvC05', 'InvC06', 'InvPendingIsRun']
 DEC_REASM = {'kind': 'mc', 'tree': True, 'name': 'reassembly', 'module': 'MC_Link', 'comp': 'dec', 'trace': 'TraceDec',
              'cfg': {'quick': 'MC_Reassembly_quick.cfg', 'thorough': 'MC_Reassembly_thorough.cfg'},
@@ -250,6 +258,11 @@ DEC_MCFRAMES = {'kind': 'mc', 'name': 'frames', 'module': 'MC_Frames', 'comp': '
 DEC_MCTECMP = {'kind': 'mc', 'name': 'tecmp', 'module': 'MC_Tecmp', 'comp': 'dec', 'trace': 'TraceDec', 'variant': 'asan',
                'cfg': {'quick': 'MC_Tecmp_quick.cfg', 'thorough': 'MC_Tecmp_thorough.cfg'}, 'invariants': ['InvC15']}
 DEC_RTECMP = {'kind': 'gen', 'name': 'randomtecmp', 'gen': dec_tecmp, 'comp': 'dec', 'trace': 'TraceDec', 'variant': 'asan'}
+DEC_MALFORMED = {'kind': 'mc', 'name': 'malformed', 'module': 'MC_Frames', 'comp': 'dec', 'trace': 'TraceDec', 'variant': 'asan',
+                 'cfg': {'quick': 'MC_Malformed_quick.cfg', 'thorough': 'MC_Malformed_thorough.cfg'},
+                 'extra': {'recheck': True}, 'invariants': ['InvC02', 'InvC04']}
+DEC_ARBITRARY = {'kind': 'gen', 'name': 'arbitrary-asan', 'gen': dec_arbitrary, 'comp': 'dec', 'trace': 'TraceDec', 'variant': 'asan'}
+DEC_ARBITRARY_P = {'kind': 'gen', 'name': 'arbitrary-guardpages', 'gen': dec_arbitrary_plain, 'comp': 'dec', 'trace': 'TraceDec'}
 DEC_STREAMS = {'kind': 'gen', 'name': 'streams', 'gen': dec_streams, 'comp': 'dec', 'trace': 'TraceDec'}
 DEC_RFAULTS = {'kind': 'gen', 'name': 'randomfaults', 'gen': dec_faults, 'comp': 'dec', 'trace': 'TraceDec'}
 DEC_RANY = {'kind': 'gen', 'name': 'randomhistory', 'gen': dec_anyhist, 'comp': 'dec', 'trace': 'TraceDec'}
@@ -377,4 +390,20 @@ PROPS = {
                     'not fit. Non-trivial = distinct episodes containing a TECMP message of a supported message type.',
             'assumptions': COMMON_ASSUMPTIONS + ['bytes after the declared TECMP payload length are not generated (their meaning is not pinned down)',
                                                  'the CAN CRC word and the classic / FD choice are not prescribed by the property']},
+    'C02': {'level': 'exploration', 'stages': [DEC_MALFORMED, DEC_MCTECMP, DEC_ARBITRARY, DEC_ARBITRARY_P],
+            'nontrivial_case': nt_dec_any,
+            'technique': 'TLA+ specification enumerates structured malformed inputs and fixes the expected outputs (TLC judges the '
+                         'recorded traces); memory safety itself is observed by guard pages and ASan/UBSan, not decided by TLC',
+            'rule': 'MC_Frames/Malformed: frames of 0..MaxMsgs catalogue messages with one byte replaced (every header field, flag, '
+                    'type and length field; 7 values each) or cut below the header; MC_Tecmp (72005 TECMP frames); seeded random byte '
+                    'strings of 0..65536 bytes, TECMP-looking and mutated well-formed frames in histories on one decoder. Every '
+                    'input is presented read-only with its end (or start) at an inaccessible page and unmapped before the result is '
+                    'read; packets are re-read after the decoder is destroyed (dec.recheck); ASan + UBSan build for accesses inside '
+                    'the library\'s own buffers; watchdog per episode. TLC judges: every call returned (no crash / timeout event), '
+                    'outputs = specification, <= 1 packet per 12 input bytes, packets non-null and unchanged at recheck. '
+                    'Non-trivial = distinct episodes of at least two decode calls.',
+            'assumptions': COMMON_ASSUMPTIONS + ['memory safety is observed by guard pages and ASan/UBSan (checks alignment, vptr and '
+                                                 'nonnull-attribute off: packed header casts and memcpy(_, nullptr, 0) are used by '
+                                                 'design), not decided by TLA+',
+                                                 '"promptly" = each episode finishes within the watchdog (60 s)']},
 }
